@@ -48,7 +48,7 @@ template <class Bn> struct C11 {
     bool eq = vf::bits_equal(got, want);
     if (eq) R.count("bit_identical_to_per_element");
     else R.count("not_bit_identical_to_per_element");
-    ref::Real d = eq ? 0 : ((got.rows() == want.rows() && got.cols() == want.cols()) ? (ref::Real)(got - want).cwiseAbs().maxCoeff() / std::max((ref::Real)1, (ref::Real)want.cwiseAbs().maxCoeff()) : INFINITY);
+    ref::Real d = eq ? 0 : ((got.rows() == want.rows() && got.cols() == want.cols()) ? (ref::Real)vf::maxabs((got - want)) / std::max((ref::Real)1, (ref::Real)vf::maxabs(want)) : INFINITY);
     if (!(d == d)) d = INFINITY;
     if (!eq && d == 0) d = 0;  // +0 vs -0
     ++R.transitions;
@@ -80,6 +80,7 @@ template <class Bn> struct C11 {
         ea.template block<El<I>::DoF, El<I>::DoF>(self->g.offDoF[I], self->g.offDoF[I]) = a; eb.template block<El<I>::DoF, El<I>::DoF>(self->g.offDoF[I], self->g.offDoF[I]) = b; };
       each<0>(f);
       same("compose", r.coeffs(), e); same("compose.Ja", ja, ea); same("compose.Jb", jb, eb);
+      { J a1, b1; a1.setConstant(nanv()); b1.setConstant(nanv()); X.compose(Y, a1); X.compose(Y, {}, b1); same("compose.Ja(alone)", a1, ea); same("compose.Jb(alone)", b1, eb); }
     }
     {
       J ja; ja.setConstant(nanv());
@@ -100,6 +101,7 @@ template <class Bn> struct C11 {
         ea.template block<El<I>::DoF, El<I>::DoF>(self->g.offDoF[I], self->g.offDoF[I]) = a; eb.template block<El<I>::DoF, El<I>::DoF>(self->g.offDoF[I], self->g.offDoF[I]) = b; };
       each<0>(f);
       same("between", r.coeffs(), e); same("between.Ja", ja, ea); same("between.Jb", jb, eb);
+      { J a1, b1; a1.setConstant(nanv()); b1.setConstant(nanv()); X.between(Y, a1); X.between(Y, {}, b1); same("between.Ja(alone)", a1, ea); same("between.Jb(alone)", b1, eb); }
     }
     {
       J ja, jb; ja.setConstant(nanv()); jb.setConstant(nanv());
@@ -110,6 +112,7 @@ template <class Bn> struct C11 {
         ea.template block<El<I>::DoF, El<I>::DoF>(self->g.offDoF[I], self->g.offDoF[I]) = a; eb.template block<El<I>::DoF, El<I>::DoF>(self->g.offDoF[I], self->g.offDoF[I]) = b; };
       each<0>(f);
       same("rplus", r.coeffs(), e); same("rplus.Ja", ja, ea); same("rplus.Jb", jb, eb);
+      { J a1, b1; a1.setConstant(nanv()); b1.setConstant(nanv()); X.rplus(t, a1); X.rplus(t, {}, b1); same("rplus.Ja(alone)", a1, ea); same("rplus.Jb(alone)", b1, eb); }
       same("X+t", (X + t).coeffs(), e);
     }
     {
@@ -121,6 +124,7 @@ template <class Bn> struct C11 {
         ea.template block<El<I>::DoF, El<I>::DoF>(self->g.offDoF[I], self->g.offDoF[I]) = a; eb.template block<El<I>::DoF, El<I>::DoF>(self->g.offDoF[I], self->g.offDoF[I]) = b; };
       each<0>(f);
       same("lplus", r.coeffs(), e); same("lplus.Ja", ja, ea); same("lplus.Jb", jb, eb);
+      { J a1, b1; a1.setConstant(nanv()); b1.setConstant(nanv()); X.lplus(t, a1); X.lplus(t, {}, b1); same("lplus.Ja(alone)", a1, ea); same("lplus.Jb(alone)", b1, eb); }
     }
     // ---- group -> tangent
     {
@@ -142,6 +146,7 @@ template <class Bn> struct C11 {
         ea.template block<El<I>::DoF, El<I>::DoF>(self->g.offDoF[I], self->g.offDoF[I]) = a; eb.template block<El<I>::DoF, El<I>::DoF>(self->g.offDoF[I], self->g.offDoF[I]) = b; };
       each<0>(f);
       same("rminus", r.coeffs(), e); same("rminus.Ja", ja, ea); same("rminus.Jb", jb, eb);
+      { J a1, b1; a1.setConstant(nanv()); b1.setConstant(nanv()); X.rminus(Y, a1); X.rminus(Y, {}, b1); same("rminus.Ja(alone)", a1, ea); same("rminus.Jb(alone)", b1, eb); }
       same("X-Y", (X - Y).coeffs(), e);
     }
     {
@@ -153,6 +158,7 @@ template <class Bn> struct C11 {
         ea.template block<El<I>::DoF, El<I>::DoF>(self->g.offDoF[I], self->g.offDoF[I]) = a; eb.template block<El<I>::DoF, El<I>::DoF>(self->g.offDoF[I], self->g.offDoF[I]) = b; };
       each<0>(f);
       same("lminus", r.coeffs(), e); same("lminus.Ja", ja, ea); same("lminus.Jb", jb, eb);
+      { J a1, b1; a1.setConstant(nanv()); b1.setConstant(nanv()); X.lminus(Y, a1); X.lminus(Y, {}, b1); same("lminus.Ja(alone)", a1, ea); same("lminus.Jb(alone)", b1, eb); }
     }
     // ---- tangent -> group
     {
@@ -177,6 +183,8 @@ template <class Bn> struct C11 {
         em.template block<El<I>::Dim, El<I>::DoF>(self->g.offDim[I], self->g.offDoF[I]) = a; ev.template block<El<I>::Dim, El<I>::Dim>(self->g.offDim[I], self->g.offDim[I]) = b; };
       each<0>(f);
       same("act", r, e); same("act.Jm", jm, em); same("act.Jv", jv, ev);
+      { Eigen::Matrix<S, Bn::Dim, Bn::DoF> m1; Eigen::Matrix<S, Bn::Dim, Bn::Dim> v1; m1.setConstant(nanv()); v1.setConstant(nanv());
+        P r1 = X.act(p, m1), r2 = X.act(p, {}, v1); same("act(Jm alone)", r1, e); same("act(Jv alone)", r2, e); same("act.Jm(alone)", m1, em); same("act.Jv(alone)", v1, ev); }
     }
     // ---- DoF x DoF matrices
 #define BLOCKDIAG(NAME, BUNDLE_EXPR, ELEM_EXPR)                                                                                   \
